@@ -7,7 +7,7 @@ EXTENDS PyApi, Json, IOUtils
 CONSTANTS MaxKw            \* how many keywords a generated call may set (1 or 2)
 P == JsonDeserialize(IOEnv.ZV_PARAMS)
 Funcs == DOMAIN P
-VClasses == {"none", "false", "true", "zero", "valid"}
+VClasses == {"none", "false", "true", "zero", "valid", "empty", "hostile"}
 
 \* every keyword's flag is an accepted option of the right arity
 TableOk ==
@@ -24,6 +24,7 @@ Pick == /\ ~done /\ Len(chosen) < MaxKw
         /\ \E i \in 1..Len(P[fn].kws) : \E vc \in VClasses :
              /\ (IF chosen = <<>> THEN TRUE ELSE chosen[Len(chosen)].i < i)
              /\ (IF vc \in {"true", "false"} THEN P[fn].kws[i].bool ELSE TRUE) /\ (IF vc = "zero" THEN P[fn].kws[i].int ELSE TRUE)
+             /\ (IF vc \in {"empty", "hostile"} THEN ~P[fn].kws[i].bool /\ ~P[fn].kws[i].int ELSE TRUE)
              /\ chosen' = Append(chosen, [i |-> i, vc |-> vc])
         /\ UNCHANGED <<fn, done>>
 Stop == ~done /\ done' = TRUE /\ UNCHANGED <<fn, chosen>>
